@@ -313,7 +313,7 @@ func (e *baseCompiledExpr) emitSetter(compiledExpr, bool) {
 }
 
 func (e *baseCompiledExpr) emitRef() {
-	e.c.assert(false, e.offset, "Cannot emit reference for this type of expression")
+	e.c.throwSyntaxError(e.offset, "Not a valid left-value expression")
 }
 
 func (e *baseCompiledExpr) emitDelete(putOnStack bool) {
